@@ -2,7 +2,27 @@
 from tools import vlib
 from checks.common import parse_number, has_zero_exponent
 
-THEOREMS = []
+THEOREMS = [
+    "Rink.Spec.eval_canonical",
+    "Rink.Spec.eval_no_zero_exponent",
+    "Rink.Spec.mul_unit",
+    "Rink.Spec.div_unit",
+    "Rink.Spec.pow_unit",
+    "Rink.Spec.root_unit",
+    "Rink.Spec.root_refuses",
+    "Rink.Spec.add_refuses_mismatch",
+    "Rink.Spec.sub_refuses_mismatch",
+    "Rink.Spec.rem_refuses_mismatch",
+    "Rink.Spec.hypot_refuses_mismatch",
+    "Rink.Spec.atan2_refuses_mismatch",
+    "Rink.Spec.trig_accepts_only_angle",
+    "Rink.Spec.trig_result_dimensionless",
+    "Rink.Spec.inverse_trig_returns_angle",
+    "Rink.Spec.atan2_returns_angle",
+    "Rink.Spec.applyBin_canonical",
+    "Rink.Spec.applyFunc_canonical",
+    "Rink.Dim.mul_canonical", "Rink.Dim.merge_sorted", "Rink.Dim.merge_nozero", "Rink.Dim.pow_canonical", "Rink.Dim.root_canonical", "Rink.Dim.mul_recip_self",
+]
 
 def judge(text, impl, aux):
     pn = parse_number(impl)
